@@ -553,6 +553,41 @@ func genUDP(rn *runner, r *vc.Rand, thorough bool) {
 		rn.add(udpLine("hold", nil, "eof", false, many, uncut, "-", nil, ""), "udp:flush-batch-32")
 		rn.add(udpLine("hold", nil, "err", false, many, 4*n-1, "-", []int{4*30 + 1, 9}, ""), "udp:flush-batch-32")
 	}
+	// the UDP socket refuses a Write (at every index, also inside / at the edge of a 32-datagram flush batch): the datagrams
+	// before it have arrived, the error is reported, the relay returns; with an illegal length behind it the error is ignored
+	for _, tds := range [][]string{{"41", "4243", "44"}, {"41", "42", "43", "44", "45"}} {
+		for wf := 0; wf <= len(tds); wf++ {
+			for _, sizes := range [][]int{nil, {4}, ones(encLen(tds))} {
+				line := udpLine("hold", nil, []string{"eof", "err"}[wf%2], false, tds, uncut, "-", sizes, "")
+				rn.add(strings.Replace(line, "udp U hold ", fmt.Sprintf("udp U hold wf%d ", wf), 1), "udp:socket-write-refused")
+			}
+			line := udpLine("eof", []string{"7172"}, "eof", false, tds, uncut, "0000", []int{5}, "tut")
+			rn.add(strings.Replace(line, "udp U eof ", fmt.Sprintf("udp U eof wf%d ", wf), 1), "udp:socket-write-refused")
+		}
+	}
+	{
+		var many []string
+		for i := 0; i < 40; i++ {
+			many = append(many, fmt.Sprintf("%02x", 0x30+i))
+		}
+		for _, wf := range []int{0, 30, 31, 32, 33, 39} {
+			line := udpLine("hold", nil, "eof", false, many, uncut, "-", nil, "")
+			rn.add(strings.Replace(line, "udp U hold ", fmt.Sprintf("udp U hold wf%d ", wf), 1), "udp:socket-write-refused")
+		}
+	}
+	// the local side is a REAL connected UDP socket: iocopy.UDP sends through its sendmmsg batch writer (32 per call)
+	for _, n := range []int{1, 5, 31, 32, 33, 64, 70} {
+		var many []string
+		for i := 0; i < n; i++ {
+			many = append(many, fmt.Sprintf("%02x%02x%02x", 0x40+i%50, i, n))
+		}
+		for _, sizes := range [][]int{nil, {7}, {3*n + 1, 2}} {
+			line := udpLine("hold", nil, []string{"eof", "err"}[n%2], false, many, uncut, "-", sizes, "")
+			rn.add("udpr"+strings.TrimPrefix(line, "udp"), "udpr:real-udp-socket")
+		}
+		line := udpLine("hold", nil, "eof", false, append(append([]string{}, many...), "z1400x3", "z9000x5"), 5*n+2+1400+700, "-", []int{11}, "")
+		rn.add("udpr"+strings.TrimPrefix(line, "udp"), "udpr:real-udp-socket")
+	}
 	// (5) schedules: every interleaving of the two goroutines for short scripts, every combination of endings
 	for _, utail := range []string{"eof", "err", "hold"} {
 		for _, ttail := range []string{"eof", "err", "hold"} {
